@@ -1279,6 +1279,151 @@ def section_renamings(ck, rng):
     ck.section("renamings", cases=len(terms))
 
 
+# ---------------------------------------------------------------- iterators: lazy vs materialised consumption
+def _state(obj):
+    """value of a yielded object (Image or array), by copy"""
+    if hasattr(obj, "coordmap"):
+        return ("image",) + snapshot(obj)
+    a = np.asarray(obj)
+    return ("array", a.shape, a.tobytes())
+
+
+def _buffer(obj):
+    return np.asarray(obj.get_fdata()) if hasattr(obj, "coordmap") else np.asarray(obj)
+
+
+def consume_both(make_iter):
+    """Consume an iterator/generator of the implementation twice: lazily (each object observed when it is yielded,
+    a reference kept past the following steps) and materialised with list(...).  -> (failure or None, lazy states,
+    materialised objects).  Failures: a yielded object changes after a later step / the materialised list differs
+    from what lazy consumption saw / two yielded objects are the same object or overlap in memory."""
+    kept, seen = [], []
+    for obj in make_iter():
+        seen.append(_state(obj))          # lazily: the value when yielded
+        kept.append(obj)                  # reference kept beyond the next step
+    for k, obj in enumerate(kept):
+        if _state(obj) != seen[k]:
+            return ("item-changed-after-a-later-step", k), seen, kept
+    mat = list(make_iter())
+    if len(mat) != len(seen):
+        return ("materialised-length-differs", None), seen, mat
+    for k, obj in enumerate(mat):
+        if _state(obj) != seen[k]:
+            return ("materialised-differs-from-lazy", k), seen, mat
+    for objs in (kept, mat):
+        for a in range(len(objs)):
+            for b in range(a + 1, len(objs)):
+                if objs[a] is objs[b]:
+                    return ("same-object-yielded-twice", b), seen, mat
+                ba, bb = _buffer(objs[a]), _buffer(objs[b])
+                if ba.size and bb.size and np.shares_memory(ba, bb):
+                    return ("items-overlap-in-memory", b), seen, mat
+    return None, seen, mat
+
+
+def section_iterators(ck, rng):
+    """every iterator of the property - iter_axis(asarray=False / True), ImageList.from_image(...) iterated with
+    for / next() and through .list, Image.__iter__ (refused) - consumed lazily and after materialising"""
+    from nipy.core.api import Image, ImageList
+    from nipy.core.image import image as imod
+    from nipy.core.reference.coordinate_map import AxisError
+    terms, metas = [], []
+    nimg = ck.n(40, 300)
+    with Spy() as spy:
+        for c in range(nimg):
+            img = rand_image(rng, maxext=3) if c % 2 else coupled_image(rng, int(rng.choice([2, 3, 4])))[0]
+            nd = img.ndim
+            snap = snapshot(img)
+            allvals = sorted(np.asarray(img.get_fdata()).ravel().tolist())
+            try:
+                iter(img)
+                ck.fail("Image.__iter__/not-refused", "iter(img) did not raise TypeError", {"image": rimg(img)})
+            except TypeError:
+                pass
+            ids = list(range(-nd, nd)) + [str(n) for n in img.axes.coord_names] + [str(n) for n in img.reference.coord_names]
+            for axis in [ids[int(i)] for i in rng.permutation(len(ids))[:3]]:
+                ref_items = None
+                for asarray in (False, True):
+                    what = "iter_axis(img, %r, asarray=%s)" % (axis, asarray)
+                    n0 = len(spy.calls)
+                    try:
+                        with warnings.catch_warnings():
+                            warnings.simplefilter("ignore")
+                            bad, seen, mat = consume_both(lambda: imod.iter_axis(img, axis, asarray=asarray))
+                    except AxisError:
+                        ck.count(("iter", c, axis, asarray), nontrivial=False, bucket="iterators:refused")
+                        break
+                    except Exception as ex:   # noqa
+                        if nd == 1 and asarray and isinstance(ex, AttributeError):
+                            # rimg[i] of a 1-d image is a bare 0-d value, which has no get_fdata()
+                            ck.fail("iter_axis(asarray=True)/raises-AttributeError/1-d-image", "%s on a 1-d image raised %s: %s" % (what, type(ex).__name__, ex),
+                                    {"image": rimg(img), "axis": axis})
+                        else:
+                            ck.fail("iter_axis/unexpected-exception", "%s raised %s: %s" % (what, type(ex).__name__, ex), {"image": rimg(img), "axis": axis})
+                        break
+                    ornts = spy.calls[n0] if len(spy.calls) > n0 else []
+                    tag = "iter_axis(asarray=%s)" % asarray
+                    if snapshot(img) != snap:
+                        ck.fail("%s/operand-mutated" % tag, "%s changed the image" % what, {"image": rimg(img), "axis": axis})
+                    if bad:
+                        ck.fail("%s/aliasing/%s" % (tag, bad[0]), "%s on shape %r: %s (item %s): every yielded slice must keep its own values "
+                                "whether consumed one at a time or kept in a list" % (what, img.shape, bad[0], bad[1]),
+                                {"image": rimg(img), "axis": axis, "asarray": asarray, "item": bad[1]})
+                        continue
+                    if not asarray:
+                        ref_items = mat
+                        continue
+                    # asarray=True: item k is the data of image item k; all values exactly once; model comparison
+                    vals = sorted(np.concatenate([np.asarray(a).ravel() for a in mat]).tolist()) if mat else []
+                    if vals != allvals:
+                        ck.fail("%s/items-do-not-partition" % tag, "%s: the yielded arrays do not contain every value exactly once" % what,
+                                {"image": rimg(img), "axis": axis})
+                    for k, a in enumerate(mat):
+                        a = np.asarray(a)
+                        if ref_items is not None and k < len(ref_items) and not np.array_equal(a, _buffer(ref_items[k])):
+                            ck.fail("%s/differs-from-image-item/%s" % (tag, "item0" if k == 0 else "item>0"),
+                                    "%s: array %d differs from the data of image item %d" % (what, k, k), {"image": rimg(img), "axis": axis, "item": k})
+                        terms.append("array_item_agrees %s %s %s %s %s %s" % (cimg(img), caxid(axis), cornts(ornts), cnat(k),
+                                                                            cnatl(a.shape), czl([int(v) for v in a.ravel()])))
+                        metas.append({"image": rimg(img), "axis": axis, "item": k, "impl_array": a.tolist()})
+                        ck.count(("iter", c, axis, k), nontrivial=True, bucket="iterators:asarray-item%s" % ("0" if k == 0 else ">0"))
+                # ImageList: iteration protocol (for / next) lazily and materialised, twice in a row, and .list
+                for dropout in (False, True):
+                    try:
+                        with warnings.catch_warnings():
+                            warnings.simplefilter("ignore")
+                            ilist = ImageList.from_image(img, axis=axis, dropout=dropout)
+                    except (AxisError, ValueError):
+                        continue
+                    except Exception as ex:   # noqa
+                        if nd == 1 and dropout and isinstance(ex, AttributeError):
+                            # the items of a 1-d image are bare 0-d values, which have no coordmap
+                            ck.fail("image_list/raises-AttributeError/1-d-image/dropout", "ImageList.from_image(img, %r, dropout=True) on a 1-d image raised %s: %s"
+                                    % (axis, type(ex).__name__, ex), {"image": rimg(img), "axis": axis})
+                        else:
+                            ck.fail("image_list/unexpected-exception", "ImageList.from_image(img, %r, dropout=%s) raised %s: %s"
+                                    % (axis, dropout, type(ex).__name__, ex), {"image": rimg(img), "axis": axis})
+                        continue
+                    bad, seen, mat = consume_both(lambda: iter(ilist))
+                    if not bad and [_state(e) for e in ilist.list] != seen:
+                        bad = ("iteration-differs-from-list", None)
+                    if not bad and not all(a is b for a, b in zip(mat, ilist.list)):
+                        bad = ("iteration-does-not-yield-the-listed-elements", None)
+                    if bad:
+                        ck.fail("ImageList.__iter__/aliasing/%s" % bad[0], "iterating ImageList.from_image(img, %r, dropout=%s): %s (item %s)"
+                                % (axis, dropout, bad[0], bad[1]), {"image": rimg(img), "axis": axis, "dropout": dropout, "item": bad[1]})
+                    ck.count(("iterlist", c, axis, dropout), nontrivial=True, bucket="iterators:ImageList")
+    if ck.build.ok:
+        res = ck.coq_bools(HDR, terms, shard=200, name="iters")
+        ck.cov["traces_validated_against_impl"] += len(res)
+        for ok, m in zip(res, metas):
+            if not ok:
+                ck.fail("model-vs-impl/iter_axis(asarray=True)/%s" % ("item0" if m["item"] == 0 else "item>0"),
+                        "model and implementation disagree on array %d of iter_axis(img, %r, asarray=True)" % (m["item"], m["axis"]), m)
+                break
+    ck.section("iterators", images=nimg, array_items=len(terms))
+
+
 def guarded(ck, name, f, *args):
     """a crash inside one section is a structured failure of that section; the other sections still run"""
     import traceback
@@ -1303,6 +1448,7 @@ def run(ck):
     guarded(ck, "all-orders", section_all_orders, ck.rng("orders"))
     guarded(ck, "renamings", section_renamings, ck.rng("renamings"))
     guarded(ck, "image_list", section_image_list, ck.rng("imagelist"))
+    guarded(ck, "iterators", section_iterators, ck.rng("iterators"))
     guarded(ck, "as_xyz", section_as_xyz, ck.rng("asxyz"))
     guarded(ck, "programs", section_programs, ck.rng("programs"))
     ck.section("value-magnitudes", originals_by_kind=dict(sorted(MAG_COUNTS.items())),
